@@ -73,6 +73,21 @@ CLAIMED["C15"] = ("proof", TRANS_NOTE + "C15: every generated aggregator is its 
     "any window length), same function for obs/fcst/members; REFUTED for unsorted grids (known finding); model tied over Q for 12 aggregators; "
     "aggregation along every axis of arrays up to 4-D and ensemble pre-aggregation checked on the implementation.", "7 C15",
     "Coq proof over translated source + hand model with correspondence check")
+CLAIMED["C13"] = ("proof", "Option tables GENERATED from driver.run's AST on every run (boolean chain, valued chain with parser kind, Data(...) "
+    "keywords, pl.<attr> block, validations); theorems: every documented data-selection flag reaches its documented constructor "
+    "argument with the documented parser (decided over the finite table), flags unique, -c/-C set subtract/divide, validations as "
+    "documented; for ANY option table the hand model of the argument loop is order independent (permutation of option groups with "
+    "distinct variables, files keeping their order), --config tokens are appended, unknown flag / missing value / missing config name / "
+    "range arity are rejected; vector syntax: a:s:b has k+1 elements ending exactly at b when hit (over Q, unbounded k). Ties: "
+    "Model/ParseNumbers.v vs util.parse_numbers on a grid of strings incl. combinations and date ranges; Model/Cli.v composed with "
+    "Model/Data.v vs `verif ... --list-times --list-locations` on generated text files, random option subsets/orders/--config.",
+    "7 C13", "Coq proof over translated option tables + hand model with correspondence check")
+CLAIMED["C12"] = ("proof", "Hand model Model/Table.v of Standard._get_x_y and the text/csv writers with axiom-free theorems for any number of inputs and "
+    "slices: one row per slice in axis order, one column per input in command-line order, each cell is that input's score on that "
+    "slice, -acc cells are prefix sums with missing scores counted as 0. Tie: the model composed with Model/Data.v (mae/bias over Q) "
+    "against the parsed csv/text output of the real command line on generated files for all 13 axes, -acc, -leg, -f; descriptors, "
+    "threshold rows and the 6/4 significant digits checked numerically (PARTIAL: %g formatting itself is library behaviour).",
+    "7 C12", "Coq proof over hand model + correspondence check")
 PENDING = {}
 
 def main():
